@@ -264,6 +264,28 @@ def cmd_replay(args):
     return 2
 
 
+def cmd_show(args):
+    """Debug aid: run one seed of a property profile and print workload, violations, trace."""
+    scn = None
+    if args.scn:
+        with open(args.scn) as f:
+            scn = json.load(f)
+            scn = scn.get("workload", scn)
+    res = in_child(lambda: execute_run(args.prop, args.seed, scn=scn, full=True))
+    if "harness" in res:
+        print(res)
+        return 2
+    print(json.dumps(res["scn"]))
+    for l in res["trace"][-args.n:]:
+        if args.all or " inbox-deliver " not in l:
+            print(l)
+    print("parked", res["final"]["parked"], "counters", res["final"]["counters"])
+    print("status", res["status"], "steps", res["steps"], "digest", res["digest"])
+    for v in res["violations"]:
+        print("VIOL", v["prop"], v["cls"], json.dumps(v["sig"]), v["detail"])
+    return 0
+
+
 def cmd_selftest(args):
     from sim import selftest
 
@@ -283,6 +305,12 @@ def main(argv=None):
     r.add_argument("--no-evidence", action="store_true")
     p = sub.add_parser("replay")
     p.add_argument("path")
+    d = sub.add_parser("show")
+    d.add_argument("prop")
+    d.add_argument("seed", type=int)
+    d.add_argument("-n", type=int, default=400)
+    d.add_argument("--all", action="store_true")
+    d.add_argument("--scn", default=None)
     s = sub.add_parser("selftest")
     s.add_argument("what")
     s.add_argument("--n", type=int, default=64)
@@ -292,6 +320,8 @@ def main(argv=None):
         return cmd_run(args)
     if args.cmd == "replay":
         return cmd_replay(args)
+    if args.cmd == "show":
+        return cmd_show(args)
     return cmd_selftest(args)
 
 
